@@ -550,10 +550,12 @@ def run_cases(cases, workdir, binary=None, timeout=300, need_model=True):
             impl.update(f.result())
     if not need_model:
         return impl, {}
-    for c in cases:
+    mcases = [c for c in cases if not c.meta.get('impl_only')]
+    for c in mcases:
         c.meta['model_ops'] = derive_model_ops(c, impl.get(c.cid, []))
+    shards = shard(mcases, NCPU)
     with ThreadPoolExecutor(max_workers=NCPU) as ex:
-        futs = [ex.submit(run_shard_robust, MODEL_BIN, s, workdir, 'model%d' % i, True, timeout) for i, s in enumerate(shards)]
+        futs = [ex.submit(run_shard_robust, MODEL_BIN, s, workdir, 'model%d' % i, True, timeout) for i, s in enumerate(shards)] if mcases else []
         model = {}
         for f in futs:
             model.update(f.result())
